@@ -16,6 +16,8 @@ for res in sorted(glob.glob('/verif/work/seedres/*.txt')):
         pid=pid[:-2]; src='/tmp/seed3-%s'%pid
     elif pid.endswith('r4'):
         pid=pid[:-2]; src='/tmp/seed4-%s'%pid
+    elif pid.endswith('r5'):
+        pid=pid[:-2]; src='/tmp/seed5-%s'%pid
     kv={}
     for l in open(res):
         if '=' in l:
